@@ -538,6 +538,19 @@ class Gen:
         if c == 'for':
             self.f('for')
             v = self.fresh('x')
+            xs = [p for p in self.usable_ptrs(t, links=False) if p.exclusive and p.target == 'str' and not p.multi]
+            if xs and self.i(0, 2) == 0:
+                # look objects up by an exclusive key taken from the iterator, possibly under another,
+                # independent FOR
+                p = self.pick(xs)
+                self.f('for-key-lookup')
+                keys = "{'" + "', '".join(self.pick(['a', 'b', 'n1', 'n2', 'u1', 'c1']) for _ in range(self.i(1, 3))) + "'}"
+                inner = f'(for {v} in {keys} union (select {t} filter .{p.name} = {v}))'
+                if self.i(0, 1):
+                    w = self.fresh('x')
+                    self.f('nested-for')
+                    return f'(for {w} in {{1, 2}} union ({inner}))'
+                return inner
             k, it = self.binding(env, prefix, d - 1)
             with self.within('for'):
                 body = self.objset(t, env + [(v, k)], prefix, d - 1)
